@@ -39,7 +39,8 @@ impl<T: Clone + Into<usize>> BondContainer<T> {
             let mut i = 0;
             while i < self.keys.len() {
                 p -= self.keys[i].1;
-                if p <= 0. {
+                // Entries with zero weight are never selected (not even by a draw of exactly 0).
+                if p <= 0. && self.keys[i].1 > 0. {
                     break;
                 }
                 i += 1
